@@ -36,7 +36,8 @@ _POOL: ProcessPoolExecutor | None = None
 def pool() -> ProcessPoolExecutor:
     global _POOL
     if _POOL is None:
-        _POOL = ProcessPoolExecutor(max_workers=NWORKERS, mp_context=mp.get_context("spawn"), initializer=_init_worker)
+        # workers are recycled after 120 jobs: mypy builds accumulate memory in a long-lived process
+        _POOL = ProcessPoolExecutor(max_workers=NWORKERS, mp_context=mp.get_context("spawn"), initializer=_init_worker, max_tasks_per_child=120)
     return _POOL
 
 
